@@ -23,7 +23,7 @@ m = {
     'checks': [],
     'not_applicable': [],
     'notes': 'All checks: python3 vp/check.py <ID> quick|thorough. Exit 0 held (KNOWN-FINDING lines allowed), 1 VIOLATION, 2 no verdict '
-             '(build failure / nondeterministic replay). known_findings.jsonl lists recorded defects and fixed: entries. See DESIGN.md.',
+             '(build failure / nondeterministic replay). known_findings.txt lists recorded defects and fixed: entries. See DESIGN.md.',
 }
 for pid in ids:
     if pid in CHECKS:
